@@ -83,6 +83,7 @@ type Engine struct {
 	curClause  *Clause
 	discSorts  map[string]*Sort
 	discExtra  map[string]bool
+	pureCache  map[string]Val
 }
 
 type pathEnd struct{ reason string }
@@ -239,13 +240,8 @@ func (e *Engine) oblige(st *State, kind, name string, goal *Term, pos token.Pos,
 	if e.cur.caseName != "" {
 		o.Name = shortFn(e.cur.fn) + "/case:" + e.cur.caseName + "/" + name
 	}
-	if !goal.IsTrue() && !st.dead {
-		for _, p := range st.pc {
-			if p == goal {
-				goal = True
-				break
-			}
-		}
+	if !goal.IsTrue() && !st.dead && st.knows(goal) {
+		goal = True
 	}
 	if goal.IsTrue() || st.dead {
 		o.Trivial = true
@@ -257,7 +253,12 @@ func (e *Engine) oblige(st *State, kind, name string, goal *Term, pos token.Pos,
 		fmt.Printf("  oblige %s trace=%v goal=%s\n", o.Name, st.trace, goal)
 	}
 	e.obls = append(e.obls, o)
-	st.assume(goal)
+	switch kind {
+	case "loop-inv-entry", "loop-inv-preserved", "loop-decreases", "ensures":
+		// the path ends here (or the invariant is assumed afresh after the havoc): do not grow the path condition
+	default:
+		st.assume(goal)
+	}
 }
 
 // ---------- values of SSA operands ----------
@@ -462,14 +463,23 @@ func (e *Engine) isTopFn(fr *Frame) bool { return fr.isTop }
 // atLoopHeader implements invariant cut points; loops without invariant simply unroll (bounded by maxSteps / visits).
 func (e *Engine) atLoopHeader(st *State, fr *Frame, li *loopInfo, from *ssa.BasicBlock) {
 	var c *Contract
+	lfn := ""
 	if e.isTopFn(fr) {
 		c = e.cur.c
 	} else {
-		c = e.contractFor(fr.fn) // inlined function with loop annotations
+		c = e.contractFor(fr.fn) // inlined function with its own loop annotations
+		// the function under verification may supply invariants for loops of inlined callees ("loop callee.K invariant")
+		if e.cur.c != nil {
+			name := fr.fn.Name()
+			if len(e.cur.c.loopClausesFn("loop-invariant", li.ord, name)) > 0 {
+				c = e.cur.c
+				lfn = name
+			}
+		}
 	}
 	var invs []*Clause
 	if c != nil {
-		invs = c.loopClauses("loop-invariant", li.ord)
+		invs = c.loopClausesFn("loop-invariant", li.ord, lfn)
 	}
 	back := li.header.Dominates(from) && li.body[from]
 	key := fmt.Sprintf("%p/%d", fr.fn, li.ord)
@@ -477,7 +487,7 @@ func (e *Engine) atLoopHeader(st *State, fr *Frame, li *loopInfo, from *ssa.Basi
 		fr.visits[li.header.Index]++
 		limit := 70
 		if c != nil {
-			for _, cl := range c.loopClauses("loop-unroll", li.ord) {
+			for _, cl := range c.loopClausesFn("loop-unroll", li.ord, lfn) {
 				fmt.Sscanf(cl.Text, "%d", &limit)
 				limit++
 			}
@@ -498,9 +508,9 @@ func (e *Engine) atLoopHeader(st *State, fr *Frame, li *loopInfo, from *ssa.Basi
 		// back edge: invariant preserved + variant decreased
 		for _, cl := range invs {
 			g := e.evalBool(ctx, cl.Expr)
-			e.oblige(st, "loop-inv-preserved", fmt.Sprintf("loop%d/inv-preserved#%d", li.ord, cl.Ord), g, li.header.Instrs[0].Pos(), cl.Props, cl.Text)
+			e.oblige(st, "loop-inv-preserved", fmt.Sprintf("loop%s%d/inv-preserved#%d", lfnp(lfn), li.ord, cl.Ord), g, li.header.Instrs[0].Pos(), cl.Props, cl.Text)
 		}
-		for _, cl := range c.loopClauses("loop-decreases", li.ord) {
+		for _, cl := range c.loopClausesFn("loop-decreases", li.ord, lfn) {
 			newV := e.eval(ctx, cl.Expr)
 			oldV := st.ghost["$variant/"+key+"/"+fmt.Sprint(cl.Ord)]
 			var g *Term
@@ -509,14 +519,14 @@ func (e *Engine) atLoopHeader(st *State, fr *Frame, li *loopInfo, from *ssa.Basi
 			} else {
 				g = Ult(newV.t(), oldV.t())
 			}
-			e.oblige(st, "loop-decreases", fmt.Sprintf("loop%d/decreases#%d", li.ord, cl.Ord), g, li.header.Instrs[0].Pos(), cl.Props, cl.Text)
+			e.oblige(st, "loop-decreases", fmt.Sprintf("loop%s%d/decreases#%d", lfnp(lfn), li.ord, cl.Ord), g, li.header.Instrs[0].Pos(), cl.Props, cl.Text)
 		}
 		panic(pathEnd{"loop back edge"})
 	}
 	// entry edge
 	for _, cl := range invs {
 		g := e.evalBool(ctx, cl.Expr)
-		e.oblige(st, "loop-inv-entry", fmt.Sprintf("loop%d/inv-entry#%d", li.ord, cl.Ord), g, li.header.Instrs[0].Pos(), cl.Props, cl.Text)
+		e.oblige(st, "loop-inv-entry", fmt.Sprintf("loop%s%d/inv-entry#%d", lfnp(lfn), li.ord, cl.Ord), g, li.header.Instrs[0].Pos(), cl.Props, cl.Text)
 	}
 	// discover written cells by a dry run of the body
 	written := e.discoverLoopWrites(st, li, key)
@@ -531,7 +541,7 @@ func (e *Engine) atLoopHeader(st *State, fr *Frame, li *loopInfo, from *ssa.Basi
 		// keep rich pointers: a phi of pointer type whose value is loop-variant cannot be tracked
 		fr.regs[p] = nv
 	}
-	assignsGiven := c.loopClauses("loop-assigns", li.ord)
+	assignsGiven := c.loopClausesFn("loop-assigns", li.ord, lfn)
 	if len(assignsGiven) > 0 {
 		pre := st.snapshot()
 		pctx := e.frameCtx(pre, fr, li.header)
@@ -562,7 +572,7 @@ func (e *Engine) atLoopHeader(st *State, fr *Frame, li *loopInfo, from *ssa.Basi
 	for _, cl := range invs {
 		st.assume(e.evalBool(ctx, cl.Expr))
 	}
-	for _, cl := range c.loopClauses("loop-decreases", li.ord) {
+	for _, cl := range c.loopClausesFn("loop-decreases", li.ord, lfn) {
 		st.ghost["$variant/"+key+"/"+fmt.Sprint(cl.Ord)] = e.eval(ctx, cl.Expr)
 	}
 	st.trace = append(st.trace, fmt.Sprintf("loop%d", li.ord))
@@ -804,16 +814,13 @@ func (e *Engine) step(st *State, fr *Frame, in ssa.Instruction) {
 			return
 		}
 		// condition already decided by the path condition (same test evaluated before on this path)
-		nc := Not(c)
-		for _, p := range st.pc {
-			if p == c {
-				e.jump(st, fr, tb)
-				return
-			}
-			if p == nc {
-				e.jump(st, fr, fb)
-				return
-			}
+		if st.knows(c) {
+			e.jump(st, fr, tb)
+			return
+		}
+		if st.knows(Not(c)) {
+			e.jump(st, fr, fb)
+			return
 		}
 		other := st.clone()
 		other.assume(Not(c))
@@ -1858,4 +1865,11 @@ func pristineBase(a *Term) bool {
 		a = a.Args[0]
 	}
 	return a.Op == OVar && strings.HasPrefix(a.Name, "H0|")
+}
+
+func lfnp(s string) string {
+	if s == "" {
+		return ""
+	}
+	return "@" + s + "."
 }
